@@ -307,7 +307,8 @@ BuildOps == NativeBuildOps \cup
              \* vectors built through the native API (negative stride, stepped, offset into a longer buffer)
              "v_nat_reversed", "v_nat_strided", "v_nat_offset"}
 (* matrix -> matrix, copying *)
-UnaryOps == {"clone", "transpose", "negative", "abs", "add_scalar", "sub_scalar", "mul_scalar",
+(* serde_json / serde_bincode: Deserialize(Serialize(A)), which must reproduce shape and entries *)
+UnaryOps == {"serde_json", "serde_bincode", "clone", "transpose", "negative", "abs", "add_scalar", "sub_scalar", "mul_scalar",
              "pow", "binarize", "slice", "reshape", "take"}
 BinaryOps == {"add", "sub", "mul", "matmul", "ab", "h_stack", "v_stack"}
 (* in place: the destination is the first operand *)
@@ -350,7 +351,7 @@ Sem(op, A, B, ia, iv, iw) ==
       [] op = "to_row_vector"   -> R_(IsM(A), ToRowVector(A))
       [] op = "get_row"         -> R_(IsM(A) /\ 1 <= ia[1] /\ ia[1] <= A.r, GetRow(A, ia[1]))
       \* ---- unary
-      [] op \in {"clone", "v_clone"} -> R_(TRUE, A)
+      [] op \in {"clone", "v_clone", "serde_json", "serde_bincode"} -> R_(TRUE, A)
       [] op = "transpose" -> R_(IsM(A), Transpose(A))
       [] op \in {"negative", "negative_mut"} -> R_(TRUE, Negative(A))
       [] op \in {"abs", "abs_mut"} -> R_(TRUE, AbsM(A))
@@ -387,8 +388,11 @@ Sem(op, A, B, ia, iv, iw) ==
 (* Integer-valued observations: [en, out] with out a sequence of integers. *)
 (* DenseMatrix::iter() consumed through the other documented ways of using an Iterator: nth, skip, step_by,
    count, last (each must behave like the corresponding number of next() calls on the row-major sequence) *)
+(* copy_row_as_vec / copy_col_as_vec into a caller buffer of length ia[2] >= the row (column) length,
+   pre-filled with ia[3]: the leading cells receive the row (column), the tail and the length stay *)
+CopyIntoOps == {"copy_row_into", "copy_col_into"}
 IterOps == {"iter_nth", "iter_skip", "iter_step", "iter_count", "iter_last"}
-QIntOps == IterOps \cup
+QIntOps == IterOps \cup CopyIntoOps \cup
            {"shape", "get", "get_row_as_vec", "get_col_as_vec", "copy_row_as_vec", "copy_col_as_vec",
             "iter", "sum", "min", "max", "norm1", "norm_inf", "norm_ninf", "norm2sq", "normp",
             "max_diff", "dot",
@@ -402,6 +406,10 @@ QInt(op, A, B, ia) ==
       [] op \in {"get_col_as_vec", "copy_col_as_vec"} -> Q_(1 <= ia[1] /\ ia[1] <= A.c, Col(A, ia[1]))
       [] op \in {"iter", "v_to_vec"} -> Q_(TRUE, A.d)                  \* row-major iteration
       \* iter().nth(k-1): the k-th element, or nothing when there are fewer
+      [] op = "copy_row_into" -> Q_(1 <= ia[1] /\ ia[1] <= A.r /\ ia[2] >= A.c,
+                                    Row(A, ia[1]) \o [x \in 1..(ia[2] - A.c) |-> ia[3]])
+      [] op = "copy_col_into" -> Q_(1 <= ia[1] /\ ia[1] <= A.c /\ ia[2] >= A.r,
+                                    Col(A, ia[1]) \o [x \in 1..(ia[2] - A.r) |-> ia[3]])
       [] op = "iter_nth"  -> Q_(ia[1] >= 1, IF ia[1] <= Len(A.d) THEN <<A.d[ia[1]]>> ELSE <<>>)
       \* iter().skip(k).collect()
       [] op = "iter_skip" -> Q_(ia[1] >= 0, SubSeq(A.d, ia[1] + 1, Len(A.d)))
@@ -447,6 +455,30 @@ NormHalfOK(ty, A, p2, o) ==
         t  == 2 + TolTy(ty, n * n1)
     IN  IF p2 >= 2 THEN o >= ni * FxOne - t /\ o <= n1 * FxOne + t
         ELSE o >= n1 * FxOne - t /\ o <= n * n1 * FxOne + t
+
+(* p-norms of NEGATIVE finite order p = -p2/2 (p2 = 1, 2, 4: p = -1/2, -1, -2) of operands without zero
+   entries: (sum |x_i|^p)^(1/p).  Decided without real powers:
+     p = -1   : 1 / sum(1/|x_i|) = prod|x| / sum_i prod_{j # i}|x_j|, an exact fraction;
+     all magnitudes equal to c : c * n^(1/p), i.e. c/n^2 (p = -1/2), c/n (p = -1), c/sqrt(n) (p = -2; compared
+                through the square);
+     otherwise: min|x| * n^(1/p) <= value <= min|x|  (the lower end weakened to min|x| / n^2).
+   In particular for two or more entries and p = -1 the value is strictly below min|x|. *)
+NormNegOps == {"norm_neg", "v_norm_neg"}
+RECURSIVE ProdIdx(_, _, _)
+ProdIdx(s, n, skip) == IF n = 0 THEN 1 ELSE (IF n = skip THEN 1 ELSE Abs(s[n])) * ProdIdx(s, n - 1, skip)
+NormNegOK(ty, A, p2, o) ==
+    LET n  == Len(A.d)
+        mn == NormNInf(A)
+        mx == NormInf(A)
+        t  == 2 + TolTy(ty, mx)
+    IN  IF p2 = 2 THEN RatClose(ProdIdx(A.d, n, 0), SeqSum([i \in 1..n |-> ProdIdx(A.d, n, i)]), o, t)
+        ELSE IF mn = mx THEN
+             (IF p2 = 1 THEN RatClose(mn, n * n, o, t)
+              ELSE \* p = -2: o ~ 1024 * c / sqrt(n)  <=>  o^2 * n ~ c^2 * 2^20
+                   LET lo == IF o > t THEN o - t ELSE 0 IN
+                   lo * lo * n <= mn * mn * 1048576 /\ (o + t) * (o + t) * n >= mn * mn * 1048576)
+        ELSE o * n * n >= mn * FxOne - t * n * n /\ o <= mn * FxOne + t
+NormNegDefined(A) == Len(A.d) >= 1 /\ Len(A.d) <= 4 /\ \A x \in 1..Len(A.d) : A.d[x] # 0 /\ Abs(A.d[x]) <= 20
 
 QBool(op, A, B, ia) ==
     CASE op \in {"eq", "v_eq"} -> EqM(A, B)
